@@ -2,7 +2,7 @@
 
 An instance of the specification's universe (chain of auto_persist declarations, instantiated class, member kinds,
 loader configuration, unknown-class / unknown-loader flavour, how the load context is supplied, what was loaded through
-it before) is turned into real classes (built with type(), registered in a module object inserted in sys.modules so that
+it before; "unknown" also by REMOVING the class, or the recorded loader's class, from the module between save and load) is turned into real classes (built with type(), registered in a module object inserted in sys.modules so that
 object loaders can resolve them) and a real object; (a prior bundle is loaded, another class of the chain is used,) the
 object is saved, the original is mutated, the saved state is loaded and saved again - every load of the session through the
 same load context (None, or ONE LoadSaveContext object).  `execute` returns the observation in the vocabulary of the
@@ -110,6 +110,10 @@ def setup():
             f.set_result(plain(path + '.result'))
         elif kind == 'futT':
             f.set_result((plain(path + '.result[0]'),))
+        elif kind == 'futN':
+            f.set_result(None)                     # an action that returns nothing
+        elif kind == 'futZ':
+            f.set_result('')                       # a falsy immutable result
         elif kind == 'futE':
             f.set_exception(Boom('E1'))
         elif kind == 'futC':
@@ -327,6 +331,20 @@ def tamper(saved, how):
                 v[META]['class_name'] = unknown_name(v[META]['class_name'])
 
 
+def unplug(S, inst, sl):
+    """The environment changes under the saved state: the class of the object under test ('gone') or the class of the loader the
+    state records ('ldrgone') is removed from the module (the interpreter keeps running).  -> [(name, object)] to put back."""
+    if inst['unk'] == 'gone':
+        name = 'K%d' % inst['t']
+    elif inst['unk'] == 'ldrgone':
+        name = type(sl).__name__
+    else:
+        return []
+    obj = getattr(S['mod'], name)
+    delattr(S['mod'], name)
+    return [(name, obj)]
+
+
 def save_loader(S, cfg):
     """The loader of the save context of a loader configuration (None = no save context)."""
     if cfg in ('persave', 'ctxboth'):
@@ -371,6 +389,7 @@ def execute(inst):
     classes = build_chain(inst['chain'])
     cfg = inst['ldr']
     loaders.set_object_loader(CL() if cfg == 'global' else None)
+    removed = []
     try:
         sl = save_loader(S, cfg)
         sctx = plumpy.LoadSaveContext(loader=sl) if sl is not None else None
@@ -418,6 +437,7 @@ def execute(inst):
         root_ident = saved.get(META, {}).get('class_name')
         mutate(S, orig)
         obs['stable'] = canon(saved) == before
+        removed = unplug(S, inst, sl)
         clear_calls(S)
         try:
             loaded = plumpy.Savable.load(saved, lctx)
@@ -436,6 +456,8 @@ def execute(inst):
         obs['resave'] = canon(saved2) == saved_cmp
         return obs
     finally:
+        for name, obj in removed:
+            setattr(S['mod'], name, obj)
         loaders.set_object_loader(None)
 
 
